@@ -219,6 +219,8 @@ def handle (w : W) (line : String) : W × String :=
       | some a => unitOp (.alias a (parseOptStr name) (parseOptStr sym)) | _ => bad
   | ["U", "resolve", text] => unitOp (.resolve text)
   | ["U", "named", name] => unitOp (.named name)
+  | ["X", "collisions"] =>
+      (w, "ok\ts\t" ++ ",".intercalate ((collisionList w.st).map (fun c => c.1 ++ "+" ++ c.2)))
   | ["X", "ptree", which, start, text] =>
       -- C16: the plain parse tree from the shipped or the freshly generated tables
       (match parseArgX w text, which, start with
